@@ -20,18 +20,36 @@ A `<method>` may lack its `line` attribute (report.dtd: `#IMPLIED`), a `<class>`
   file. THIS IS THE QUANTIFIER OF THE PROPERTY TEXT ("methods with names unique within their class"):
   the property really restricts to unique names, and `C10_fidelity` carries that guard. What the
   code does without it is `C10_fidelity_overloads` + `C10_repeated_method_last_wins` (unguarded),
-  and `C10_fidelity_without_name_guard_false` shows the guard cannot be dropped (every real Java
-  report has overloaded methods: finding candidate C10-overloaded-methods-collapse).
+  and `C10_fidelity_without_name_guard_false` shows the guard cannot be dropped.
 * `good cap x`: the two conditions under which the parser returns `Ok` at all on such input:
   every `<method>` has a `line` attribute (`C10_method_without_line_rejects_the_report`: otherwise
-  `Err(InvalidRecord)` for the WHOLE report – DTD-valid reports of classes without debug
-  information are rejected: finding candidate C10-method-without-line-rejects-report), and no
+  `Err(InvalidRecord)` for the WHOLE report), and no
   `<line>` has `cb + mb > cap` (`C10_oversized_branch_vector_crashes`: otherwise the outcome is
   `alloc` = "capacity overflow" panic or allocation abort; `cap` ≤ `allocMax` = isize::MAX is the
   longest vector the machine builds; `parse = parseCap allocMax`).
 
 All theorems hold for every such `x`, of any size, every `cap`, and every fuel from `enoughFuel`
 upwards (`enoughFuel evs = 2·|evs| + 1`).
+
+Observations outside the property's quantifier. The property quantifies over "methods with names
+unique within their class" and its statement presumes "the method's line attribute"; two kinds of
+report lie outside it. They are NOT violations of C10 and not findings; the theorems below say
+exactly what the code does with them, and the harness keeps generating them (tied to the model,
+counted as `observation.overload` / `observation.noline`, not judged by the property oracle).
+* Overloaded methods collapse. The parser keys the functions of a file by `Class#name` and never
+  reads `desc`, so methods that share a name (several `<init>`, `equals(Object)`/`equals(T)`: every
+  real Java report has them) become ONE function carrying the line and executed flag of the LAST
+  of them in document order (`C10_fidelity_overloads`, `C10_repeated_method_last_wins`,
+  `C10_fidelity_without_name_guard_false`). Witness `exOverload` = harness corpus case `overload`:
+  `<class name="p/A" sourcefilename="A.java">` with `<method name="&lt;init&gt;" desc="(I)V"
+  line="3">` (METHOD counter covered="1") followed by `<method name="&lt;init&gt;" desc="()V"
+  line="7">` (covered="0") is reported as the single function `A#<init>`, line 7, not executed.
+* A `<method>` without `line` rejects the report. report.dtd declares `line` `#IMPLIED` (JaCoCo
+  omits it for classes compiled without debug information); `get_xml_attribute(.., "line")?` turns
+  its absence into `Err(InvalidRecord)` for the WHOLE report
+  (`C10_method_without_line_rejects_the_report`, `C10_missing_attribute_outcomes`). Witness
+  `exNoLine` = harness corpus case `noline`: `<class name="p/A" sourcefilename="A.java"><method
+  name="m" desc="()V"/></class>` gives `err InvalidRecord`.
 
 Not part of the model (exercised by the correspondence run only): the quick-xml tokenizer
 (bytes ↔ events), UTF-8 validation of names, the `FxHashMap` iteration order inside one package
@@ -89,7 +107,7 @@ def C10_fidelity_without_name_guard_stmt : Prop :=
 
 /-- … is false of the code: two `<init>` in one class (line 3 executed, line 7 not executed) give
 ONE function `A#<init>`, line 7, not executed (`exOverload`; the harness replays it on the real
-parser: corpus witness of C10-overloaded-methods-collapse). -/
+parser: corpus case `overload`, an observation outside the property's quantifier). -/
 theorem C10_fidelity_without_name_guard_false : ¬ C10_fidelity_without_name_guard_stmt := by
   intro h
   have := h exOverload (by decide +kernel) (by decide +kernel)
